@@ -651,9 +651,17 @@ def r12_pdo(run, fx):
     b = fx.body("cff::cff2::CFF2::<'a>::instance_char_strings")
     if b is None:
         return run.anchor_missing(rule, "CFF2::instance_char_strings")
-    visits = [bi for bi, t in b.calls() if callee_is(t, "CharStringVisitorContext::<'a, 'data>::visit", "CharStringVisitorContext::visit") or str(t["callee"].get("path") or "").endswith("CharStringVisitorContext::<'a, 'data>::visit")]
-    if not visits:
-        visits = [bi for bi, t in b.calls() if re.search(r"CharStringVisitorContext(::<[^>]*>)?::visit$", str(t["callee"].get("path") or ""))]
+    is_visit = lambda t: bool(re.search(r"CharStringVisitorContext(::<[^>]*>)?::visit$", str(t["callee"].get("path") or "")))
+    visits = [bi for bi, t in b.calls() if is_visit(t)]
+    # the glyph loop's body may live in a private helper of the module: a call of a cff2 function that (with its own helpers) interprets a
+    # charstring counts as the interpretation
+    for bi, t in b.calls():
+        cp = str(t["callee"].get("path") or "")
+        if bi in visits or not cp.startswith("cff::cff2::"):
+            continue
+        hb = fx.body(cp)
+        if hb is not None and hb is not b and any(is_visit(t2) for g in fx.with_helpers(hb, "cff::cff2::") for fb in fx.family(g) for _, t2 in fb.calls()):
+            visits.append(bi)
     writes = []
     fields = ("private_dict", "local_subr_index")
     for bi, blk in enumerate(b.blocks):
